@@ -356,8 +356,11 @@ fn panic_fail(p: PanicInfo) -> Fail {
     }
     // first line only
     let msg1 = msg.lines().next().unwrap_or("").to_string();
+    // A panic raised in the harness's own sources (relative path, not under /repo and not in the
+    // standard library) is a bug of the check, not a verdict about the library.
+    let harness = !p.file.starts_with('/') && (p.file.starts_with("src/") || p.file.starts_with("harness/"));
     Fail {
-        sig: format!("panic:{}:{}", short_file(&p.file), msg1),
+        sig: format!("{}:{}:{}", if harness { "harness_panic" } else { "panic" }, short_file(&p.file), msg1),
         detail: format!("panic at {}:{}: {}", p.file, p.line, p.msg),
     }
 }
